@@ -21,10 +21,10 @@ def plan(tier):
     qs.append(Query('control_lockfree_t2_r1', ['-DKIND=9', '-DNTHR=2', '-DMAXREC=1'], [], unwind=2, hardcap=52, est_gb=4, profile=qs[0].profile, harness_unwind=50, trust_solver=True,
                     expect_fail=True, sample={'sink': 'StdOut (no lock): negative control, must be refuted', 'threads': 2}))
     corpus = []
-    u = Unit('mt', 'harness/C09/h_c09.cpp', 'harness/C09/cb_c09.c', caps={'str': 8, 'vec': 2, 'ss': 8}, cxx_defs=['-DVSTD_SHARED_STDIO', '-DNITRO_VERIF_NO_MESSAGES'], queries=qs, corpus=[])
+    u = Unit('mt', 'harness/C09/h_c09.cpp', 'harness/C09/cb_c09.c', caps={'str': 8, 'vec': 2, 'ss': 8}, cxx_defs=['-DVSTD_SHARED_STDIO', '-DNITRO_VERIF_NO_MESSAGES'], queries=qs, corpus=[], ir2c_flags=['--atomics-are-model-limit'])
     return Runner('C09', tier, [u],
                   bounds={'threads': '2 (quick) / 2..3 (thorough)', 'records_per_thread': '1..2', 'record_bytes': '1..2, symbolic', 'schedules': 'every interleaving of the recorded events (lock, unlock, read-length, write-byte, flush)'},
-                  outside=['data races inside libstdc++ ostream other than the modelled non-atomic append', 'more than 3 threads', 'correctness of std::mutex and of thread-safe function-local statics (trusted)',
+                  outside=['synchronisation by anything but std::mutex (a sink that locks through atomic read-modify-write operations makes the check inconclusive, not alarmed: the scheduler model interprets mutex and device events only)', 'data races on the sink\'s own state that change a thread\'s control flow (each thread body is extracted on its own; e.g. an unsynchronised lazily created mutex)', 'data races inside libstdc++ ostream other than the modelled non-atomic append', 'more than 3 threads', 'correctness of std::mutex and of thread-safe function-local statics (trusted)',
                            'native replay of a schedule (would need a schedule-forcing streambuf); a violation is reported from the solver trace with the mutant-style explanation'],
                   assumptions=['std::mutex / lock_guard are the vstd models that call the harness hooks; std::cout / std::cerr are non-seekable cores whose every byte is handed to the shared-device model',
                                'per-thread event extraction is exact because no environment call returns data that depends on another thread'])
